@@ -25,6 +25,7 @@ ASSUMPTIONS = [
     "element 'metadata' is judged against 'at most one child of any name' (C05), not its empty children section",
 ]
 REQUIRED = ["validations_of_nodes_named_unlike_the_rules_elements", "validations_below_a_real_parent", "parents_with_optional_attributes", "colon_named_children_with_declared_prefix", "collecting_calls_with_a_very_long_list", "reorders_in_place_on_reused_parent", "real_names_as_strangers", "child_names_of_a_str_subclass", "mixed_parents_with_blank_or_real_text", "sequences_longer_than_256", "table_edit_probes", "validations_of_nested_parent", "foreign_children_with_prefix", "validations_on_reused_parent_object", "validations_on_reused_rule_object", "collecting_calls_with_prefilled_list", "failfast_accept", "failfast_reject", "collecting_accept", "collecting_reject", "oracle_crosschecks"]
+THREAD_HAMMER = "full"      # (mode T side shards: the hammering threads also import, load and copy documents of their own)
 EXHAUSTIVE = {"quick": False, "thorough": False}
 
 FOREIGN_NAME = "verifForeignElement"
@@ -462,7 +463,9 @@ def table_edit_probe(ctx):
 
 def run(ctx, params):
     if params.get("part", 0) == 0 and params["rules"] and params["rules"][0] == emlkit.rule_names()[0]:
-        table_edit_probe(ctx)
+        from vlib import hammer
+        with hammer.paused():       # (the probe edits the shared rule table in place)
+            table_edit_probe(ctx)
     for r in params["rules"]:
         try:
             with ctx.guard(3000.0):
@@ -490,7 +493,9 @@ def finish(merged):
 
 def replay(ctx, witness):
     if witness.get("table_edit_probe"):
-        table_edit_probe(ctx)
+        from vlib import hammer
+        with hammer.paused():       # (the probe edits the shared rule table in place)
+            table_edit_probe(ctx)
         ctx.distinct(1)
         ctx.distinct(2)
         return
